@@ -250,6 +250,64 @@ def unit_stop(ctx):
 
 
 # ------------------------------------------------------------------------------------------------
+# unit level: the stagnation clock of a REAL GenerationKeeper under the settable clock
+# ------------------------------------------------------------------------------------------------
+def unit_keeper(ctx):
+    from golem.core.optimisers.archive.generation_keeper import GenerationKeeper
+    from golem.core.optimisers.fitness import SingleObjFitness
+    from golem.core.optimisers.objective import Objective
+    from golem.core.optimisers.opt_history_objects.individual import Individual
+    rng = ctx.rng
+    cases, meta = [], []
+    kinds = ['improve', 'same', 'worse', 'empty']
+    seqs = [c for n in range(1, 5) for c in itertools.product(kinds, repeat=n)]
+    reps = ctx.budget(2, 12)
+    eighths = [Fraction(k, 8) for k in range(0, 13)]
+
+    def ind(value):
+        i = Individual(optrun.build_graph(['a', []]))
+        i.set_evaluation_result(SingleObjFitness(float(value)))
+        return i
+    with fake_clock():
+        for seq in seqs:
+            for _ in range(reps):
+                t = rng.choice(eighths)
+                at(t)
+                keeper = GenerationKeeper(Objective({'m': _zero_metric}), keep_n_best=1)
+                t_create = t
+                best = 100.0
+                apps, obs, flags = [], [], []
+                for kind in seq:
+                    t = t + rng.choice(eighths[1:])
+                    at(t)
+                    if kind == 'improve':
+                        best -= 1.0
+                        pop = [ind(best), ind(best + 5)]
+                    elif kind == 'same':
+                        pop = [ind(best)]
+                    elif kind == 'worse':
+                        pop = [ind(best + 3)]
+                    else:
+                        pop = []
+                    keeper.append(pop)
+                    improved = bool(keeper.is_any_improved)
+                    start = keeper.stagnation_start_time - BASE
+                    qt = t + rng.choice(eighths + [Fraction(7, 60), Fraction(1, 120)])
+                    at(qt)
+                    dur = keeper.stagnation_time_duration
+                    apps.append('(%s, %s, %s)' % (c_bool(improved), q(t), q(qt)))
+                    obs.append('(%s, %s, %s, %s)' % (c_nat(keeper.generation_num), c_nat(keeper.stagnation_iter_count),
+                                                     fr(_minutes(start)), c_Q(Fraction(int(round(dur * 60)), 60))))
+                    flags.append(improved)
+                cases.append('UKeeper %s %s %s' % (q(t_create), c_list(apps, '(bool * Q * Q)'), c_list(obs, '(nat * nat * Q * Q)')))
+                meta.append({'unit': 'GenerationKeeper stagnation clock', 'appends': list(seq), 'improved': flags,
+                             'case': cases[-1][:600]})
+                ctx.count('keeper', key=cases[-1], nontrivial=len(seq) >= 2, appends=len(seq),
+                          second_improves=(str(flags[1]) if len(flags) > 1 else 'n/a'))
+    return cases, meta
+
+
+# ------------------------------------------------------------------------------------------------
 # unit level: GroupedCondition
 # ------------------------------------------------------------------------------------------------
 def unit_grouped(ctx):
@@ -605,9 +663,16 @@ def unit_api(ctx):
 # real runs
 # ------------------------------------------------------------------------------------------------
 class TimedLog(list):
-    """objective-call log of optrun.Metric that also stamps the wall clock"""
+    """objective-call log of optrun.Metric that also stamps the wall clock; `sleep` = [first call, last call,
+    seconds]: the objective calls with these indices are slow (a slow population)"""
+
+    def __init__(self, sleep=None):
+        super().__init__()
+        self.sleep = sleep
 
     def append(self, item):
+        if self.sleep and self.sleep[0] <= item.get('i', -1) <= self.sleep[1]:
+            time.sleep(self.sleep[2])
         item['abs'] = datetime.datetime.now()
         super().append(item)
 
@@ -643,7 +708,7 @@ def run_real(cfg):
     logging.disable(logging.CRITICAL)
     from golem.core.optimisers.populational_optimizer import EvaluationAttemptsError
     from golem.utilities.utilities import urandom_mock
-    log = TimedLog()
+    log = TimedLog(cfg.get('slow_calls'))
     rec = {'cfg': cfg, 'outcome': None, 'pops': [], 'started': 0, 'broke': False}
     with patch('os.urandom', urandom_mock):
         random.seed(cfg.get('seed', 0))
@@ -823,6 +888,13 @@ def make_configs(ctx):
                         objective={'metrics': [rng.choice(['size', 'neg_size'])], 'multi': False,
                                    'faults': {'by_class': [2, k % 2, rng.choice(['raise', 'none', 'nan'])]}},
                         initial=rng.choice(['two', 'three']), seed=rng.randrange(10 ** 6)))
+    # runs that early_stopping_timeout has to stop: the second recorded population (the extension of the initial one)
+    # is slow and does not improve; 3/64 min = 2.8 s is exact in binary, the three slow evaluations take >= 3.3 s
+    for k in range(ctx.budget(3, 9)):
+        out.append(dict(out[k], optimiser=['evo', 'pop_random_mutation', 'surrogate'][k % 3], num_of_generations=4, timeout_min=GENEROUS,
+                        early_stopping_iterations=None, early_stopping_timeout=0.046875, pop_size=5, max_pop_size=8,
+                        scheme='generational', initial='two', diversity_check=-1, show_progress=False,
+                        objective={'metrics': ['plateau'], 'multi': False}, slow_calls=[2, 4, 1.1], seed=rng.randrange(10 ** 6)))
     # more initial graphs than max_pop_size: the genetic optimisers clamp at the first step (the two random-mutation
     # optimisers never read max_pop_size and are outside the documented domain of this clause)
     for k in range(ctx.budget(3, 12)):
@@ -839,12 +911,13 @@ def make_configs(ctx):
     return out
 
 
-RCHECK_NAMES = ['agree', 'accepts', 'generations', 'stagnation', 'time', 'zero_budget', 'max_pop', 'adaptive', 'terminates']
+RCHECK_NAMES = ['agree', 'accepts', 'generations', 'stagnation', 'time', 'zero_budget', 'max_pop', 'adaptive', 'terminates',
+                'stagnation_time']
 MAX_TIMEOUTS = 3
 
 
 def judge_run(ctx, group, rec, flags):
-    ag, acc, gens, stagn, tim, zero, mxp, adp, term = flags
+    ag, acc, gens, stagn, tim, zero, mxp, adp, term, stagt = flags
     s = summarise(rec)
     if not term:
         ctx.violate(group, s, 'run did not terminate within %.0f s under limits num_of_generations=%s, timeout=%s min, '
@@ -861,6 +934,9 @@ def judge_run(ctx, group, rec, flags):
         ctx.violate(group, s, 'more evolution steps than num_of_generations')
     if not stagn:
         ctx.violate(group, s, 'a step was started although the stagnation limit (count or time) had been reached at the preceding check')
+    if not stagt:
+        ctx.violate(group, s, 'a step was started although the stagnation-time limit (early_stopping_timeout) had been reached: '
+                              'measured from the callbacks, independently of the keeper clock')
     if not tim:
         ctx.violate(group, s, 'a step was started although the time limit had been reached')
     if not zero:
@@ -915,7 +991,7 @@ def real_runs(ctx, started=None):
         bad['evolved_sizes'] = bad['evolved_sizes'] + [1] * (bad['cfg']['num_of_generations'] + 1)
         cases.append(run_case(bad))
         ctx.canaries += 1
-    res = ctx.coq_cases('runs', REQ, 'rcheck', cases, 9, shard=40)
+    res = ctx.coq_cases('runs', REQ, 'rcheck', cases, 10, shard=40)
     if base is not None:
         if not res[-1][0] and not res[-1][2]:
             ctx.canaries_caught += 1
@@ -930,7 +1006,7 @@ def real_runs(ctx, started=None):
                   num_of_generations=str(lim[0]), early_stopping_iterations=str(lim[1]),
                   early_stopping_timeout=str(cfg.get('early_stopping_timeout')), timeout_min=str(cfg.get('timeout_min')),
                   progress_bar=bool(cfg.get('show_progress')), timer_terminated=rec.get('timer_terminated'),
-                  failing_objective=bool(cfg['objective'].get('faults')),
+                  failing_objective=bool(cfg['objective'].get('faults')), slow_population=bool(cfg.get('slow_calls')),
                   steps_beyond_recorded=min(max(rec['started'] - evolved, 0), 6))
         judge_run(ctx, 'runs', rec, flags)
     for rec in recs[:3]:
@@ -945,6 +1021,7 @@ def run(ctx):
                 '(plateaus) x progress bar; one case = one run; distinct = distinct configuration; non-trivial = at least one '
                 'evolved generation or a zero time budget.  (b) unit lock-step of OptimisationTimer / Timer under a settable '
                 'clock, the stop test of real optimiser objects over all None/value combinations of the four options, '
+                'the stagnation clock of a real GenerationKeeper over sequences of improving / non-improving / empty appends, '
                 'GroupedCondition, ConstRatePopulationSize, AdaptivePopulationSize, SequenceIterator, fibonacci_sequence, '
                 'AdaptiveGraphDepth on small integer grids; distinct = distinct input tuple.  (c) GOLEM(...) facade with a '
                 'recording optimiser class: where every keyword argument lands.')
@@ -962,7 +1039,7 @@ def run(ctx):
     ctx.scale = min(ctx.scale, 2)
     started = start_runs(ctx)
     try:
-        groups = [('timer', unit_timer), ('stop', unit_stop), ('grouped', unit_grouped), ('sizes', unit_sizes)]
+        groups = [('timer', unit_timer), ('stop', unit_stop), ('keeper', unit_keeper), ('grouped', unit_grouped), ('sizes', unit_sizes)]
         for name, fn in groups:
             cases, meta = fn(ctx)
             if name == 'timer':
@@ -995,6 +1072,6 @@ def replay(ctx, payload):
     if not cfg:
         return
     rec = run_real(cfg)
-    res = ctx.coq_cases('replay', REQ, 'rcheck', [run_case(rec)], 9)
+    res = ctx.coq_cases('replay', REQ, 'rcheck', [run_case(rec)], 10)
     ctx.count('replay', key=json.dumps(cfg, sort_keys=True), nontrivial=True)
     judge_run(ctx, 'replay', rec, res[0])
